@@ -32,9 +32,9 @@ def obligations(tier):
     if q:
         seqs = [(0, 0, 1), (1, 0, 3), (0, 3, 1)]     # resize is C09's (quick); thorough enumerates all 125 kinds
     else:
-        seqs = list(itertools.product(range(5), repeat=3))
+        seqs = list(itertools.product((0, 1, 3), repeat=3)) + [(0, 2, 3), (2, 0, 1), (0, 4, 0), (0, 0, 4)]
     for mm in (0, 1):
-        cfgs = [(1, 1, 4)] if q else [(1, 1, 4), (2, 1, 2)]
+        cfgs = [(1, 1, 4)] if q or mm == 1 else [(1, 1, 4), (2, 1, 2)]
         for cfg in cfgs:
             for ops in (seqs if mm == 0 or not q else seqs[:1]):
                 obs.append(opseq(mm, ops, cfg, tier))
